@@ -430,6 +430,39 @@ class Fn:
             if done:
                 return n
 
+    def guard_continues(self):
+        """R-continue (second form, for loops only): a statement `if C { continue; }` directly in the
+        body of a `for` becomes `if C {} else {` ... rest of the body ... `}`."""
+        n = 0
+        while True:
+            hit = None
+            for l in self.loops():
+                if l['kw'] != 'for':
+                    continue
+                # statement-level `if` at depth 0 of this loop body whose block is just `continue;`
+                for m in find_depth0(self.mask, r'\bif\b', l['hdr_end'] + 1, l['body_close']):
+                    p = 0
+                    k = m.end()
+                    while not (self.mask[k] == '{' and p == 0):
+                        if self.mask[k] == '(':
+                            p += 1
+                        elif self.mask[k] == ')':
+                            p -= 1
+                        k += 1
+                    e = match_close(self.mask, k)
+                    if re.fullmatch(r'\s*continue\s*;\s*', self.mask[k + 1:e]) and not re.match(r'\s*else\b', self.mask[e + 1:]):
+                        hit = (l, k, e)
+                        break
+                if hit:
+                    break
+            if not hit:
+                return n
+            l, k, e = hit
+            bc = l['body_close']
+            self.text = self.text[:k] + '{} else {' + self.text[e + 1:bc] + '}\n' + self.text[bc:]
+            self._rescan()
+            n += 1
+
     def strip_attrs_and_docs(self):
         """R-attr: drop doc comments and the listed harmless attributes in front
         of the fn and inside it."""
